@@ -283,24 +283,32 @@ Undef    == [d |-> 0, v |-> 0]
 Unsup    == [d |-> 2, v |-> 0]
 Guard(v) == IF IAbs(v) > Big THEN Undef ELSE Val(v)
 
-RECURSIVE IPowPos(_, _)
-IPowPos(b, e) ==          \* b ** e for e >= 0, Undef when the bound is exceeded
-  IF e = 0 THEN Val(1)
-  ELSE LET r == IPowPos(b, e - 1) IN
-       IF r.d # 1 THEN r ELSE Guard(r.v * b)
+RECURSIVE IPowAcc(_, _, _)
+IPowAcc(b, e, acc) ==     \* acc * b**e for |b| >= 2, e >= 0; at most 15 steps to the bound
+  IF e = 0 THEN Val(acc)
+  ELSE IF IAbs(acc * b) > Big THEN Undef
+  ELSE IPowAcc(b, e - 1, acc * b)
 IPow(b, e) ==
-  IF e >= 0 THEN (IF b = 0 /\ e = 0 THEN Undef ELSE IPowPos(b, e))
-  ELSE IF b = 0 THEN Undef                          \* division by zero
+  IF b = 0 THEN (IF e > 0 THEN Val(0) ELSE Undef)   \* 0**0, 0**negative: not defined
   ELSE IF b = 1 THEN Val(1)
   ELSE IF b = 0 - 1 THEN Val(IF IAbs(e) % 2 = 0 THEN 1 ELSE 0 - 1)
+  ELSE IF e >= 0 THEN IPowAcc(b, e, 1)
   ELSE Val(0)                                       \* 1 / b**|e| truncates to 0
 
+\* value of an integer literal constant (digit strings are opaque to TLC)
 LitTable == [s \in {"0", "1", "2", "3", "4", "5", "6", "7", "8", "9", "10", "11",
-                    "12", "16"} |->
-             CASE s = "0" -> 0 [] s = "1" -> 1 [] s = "2" -> 2 [] s = "3" -> 3
-               [] s = "4" -> 4 [] s = "5" -> 5 [] s = "6" -> 6 [] s = "7" -> 7
-               [] s = "8" -> 8 [] s = "9" -> 9 [] s = "10" -> 10 [] s = "11" -> 11
-               [] s = "12" -> 12 [] s = "16" -> 16]
+                    "12", "13", "14", "15", "16", "17", "18", "19", "20", "21", "22", "23",
+                    "24", "25", "26", "27", "28", "29", "30", "31", "32", "33", "34", "35",
+                    "36", "37", "38", "39", "40", "48", "64"} |->
+             CASE s = "0" -> 0 [] s = "1" -> 1 [] s = "2" -> 2 [] s = "3" -> 3 [] s = "4" -> 4
+            [] s = "5" -> 5 [] s = "6" -> 6 [] s = "7" -> 7 [] s = "8" -> 8 [] s = "9" -> 9
+            [] s = "10" -> 10 [] s = "11" -> 11 [] s = "12" -> 12 [] s = "13" -> 13 [] s = "14" -> 14
+            [] s = "15" -> 15 [] s = "16" -> 16 [] s = "17" -> 17 [] s = "18" -> 18 [] s = "19" -> 19
+            [] s = "20" -> 20 [] s = "21" -> 21 [] s = "22" -> 22 [] s = "23" -> 23 [] s = "24" -> 24
+            [] s = "25" -> 25 [] s = "26" -> 26 [] s = "27" -> 27 [] s = "28" -> 28 [] s = "29" -> 29
+            [] s = "30" -> 30 [] s = "31" -> 31 [] s = "32" -> 32 [] s = "33" -> 33 [] s = "34" -> 34
+            [] s = "35" -> 35 [] s = "36" -> 36 [] s = "37" -> 37 [] s = "38" -> 38 [] s = "39" -> 39
+            [] s = "40" -> 40 [] s = "48" -> 48 [] s = "64" -> 64]
 
 \* the family standing for "any array": identity, reversal, a non-injective map, constant
 ArrFns == 1..4
